@@ -34,6 +34,16 @@ FinalNext(p, next, left) ==
   ELSE next
 AllExt == {"hbh", "rt", "fr"}
 EncGroupRecord(r) == r.Type \o r.AuxDataLen \o r.NumberOfSources \o r.MulticastAddress \o Flat(r.SourceAddresses) \o Flat(r.AuxData)
+\* DHCP (RFC 2131 / 2132): fixed 236-byte header, magic cookie, options (pad and end are single bytes)
+EncDhcpOpt(o) == IF o.Tag \in {<<0>>, <<255>>} THEN o.Tag ELSE o.Tag \o <<Len(o.Data)>> \o o.Data
+HasEnd(opts) == \E i \in DOMAIN opts : opts[i].Tag = <<255>>
+EncDhcp(d) == d.Operation \o d.HardwareType \o d.HardwareLen \o d.HardwareOpts \o d.Xid \o d.Secs \o d.Flags \o d.ClientIP \o d.YourIP
+              \o d.ServerIP \o d.GatewayIP \o d.ClientHWAddr \o Zeros(16 - Len(d.ClientHWAddr)) \o d.ServerName \o d.File \o <<99, 130, 83, 99>>
+              \o Flat([i \in DOMAIN d.Options |-> EncDhcpOpt(d.Options[i])]) \o (IF HasEnd(d.Options) THEN <<>> ELSE <<255>>)
+\* LLDP TLV (IEEE 802.1AB): 7-bit type, 9-bit length of the value; chassis / port id values start with a subtype byte
+LldpHdr(type, len) == BE16(type * 512 + len)
+EncLldpId(t) == LldpHdr(t.Type[1], 1 + Len(t.Data)) \o t.Subtype \o t.Data
+EncLldpTtl(t) == LldpHdr(t.Type[1], 2) \o t.Seconds
 RECURSIVE EncPkt(_)
 EncPayload(d) == IF d.T = "nil" THEN <<>> ELSE IF d.T = "Buffer" THEN d.B ELSE EncPkt(d)
 EncPkt(p) ==
@@ -57,9 +67,12 @@ EncPkt(p) ==
     [] p.T = "IGMPv3GroupRecord" -> EncGroupRecord(p)
     [] p.T = "IGMPv3MembershipReport" -> p.Type \o <<0>> \o p.Checksum \o <<0, 0>> \o p.NumberOfGroups
                                          \o Flat([i \in DOMAIN p.GroupRecords |-> EncGroupRecord(p.GroupRecords[i])])
+    [] p.T = "DHCP" -> EncDhcp(p)
+    [] p.T \in {"ChassisTLV", "PortTLV"} -> EncLldpId(p)
+    [] p.T = "TTLTLV" -> EncLldpTtl(p)
     [] p.T = "Buffer" -> p.B
 PktKinds == {"Ethernet", "VLAN", "ARP", "IPv4", "IPv6", "HopByHopHeader", "RoutingHeader", "FragmentHeader", "Option", "ICMP", "UDP", "TCP",
-             "IGMPv1or2", "IGMPv3Query", "IGMPv3GroupRecord", "IGMPv3MembershipReport", "Buffer"}
+             "IGMPv1or2", "IGMPv3Query", "IGMPv3GroupRecord", "IGMPv3MembershipReport", "DHCP", "ChassisTLV", "PortTLV", "TTLTLV", "Buffer"}
 \* which decoder the payload must be handed to (the kind of the decoded payload)
 Demux(p) ==
   CASE p.T = "Ethernet" -> (CASE p.Ethertype = <<8, 0>> -> "IPv4" [] p.Ethertype = <<134, 221>> -> "IPv6" [] p.Ethertype = <<8, 6>> -> "ARP" [] OTHER -> "Buffer")
